@@ -930,14 +930,14 @@ def check(ctx):
     ctx.analysed(DR + ".diagram2nx")
     names, ab = check_make_space(ctx, top)
     heights = check_add_box(ctx, top, names, ab)
-    check_heights(ctx, top, heights)
-    check_node_keys(ctx)
-    check_backends(ctx)
-    check_diagramize(ctx)
-    check_diagramize_guards(ctx)
+    ctx.attempt(check_heights, ctx, top, heights)
+    ctx.attempt(check_node_keys, ctx)
+    ctx.attempt(check_backends, ctx)
+    ctx.attempt(check_diagramize, ctx)
+    ctx.attempt(check_diagramize_guards, ctx)
     ctx.rule("R20.9", "bubbles: opening / closing boxes typed against the inside, straight-wire flags only when the lengths on that side agree, index-shifted edges in add_box")
-    check_bubbles(ctx, top)
-    check_bubble_guards(ctx, top)
+    ctx.attempt(check_bubbles, ctx, top)
+    ctx.attempt(check_bubble_guards, ctx, top)
     ctx.floor("R20.9", 9)
     ctx.floor("R20.1", 5)
     ctx.floor("R20.2", 7)
